@@ -112,6 +112,19 @@ func (c *Cluster) Member(client int, id string, add bool, server string, voter b
 	if res.Error() == nil {
 		cfg := res.Success()
 		ret.Cfg = simnet.CfgOf(&cfg)
+		// C09 (2): a successful future reports a COMMITTED configuration that contains the requested change
+		if !inc.Dead() {
+			st := r.VerifState()
+			v, member := ret.Cfg.Members[server]
+			switch {
+			case add && (!member || v != voter):
+				c.M.AddViolation(mon.Violation{Props: []string{"C09", "C18"}, Sig: "membership-future-wrong-configuration", Node: target, Msg: fmt.Sprintf("AddServer(%s, voter=%v) at %s succeeded with configuration %s, which does not contain the change", server, voter, target, ret.Cfg.Canon())})
+			case !add && member:
+				c.M.AddViolation(mon.Violation{Props: []string{"C09", "C18"}, Sig: "membership-future-wrong-configuration", Node: target, Msg: fmt.Sprintf("RemoveServer(%s) at %s succeeded with configuration %s, which still contains it", server, target, ret.Cfg.Canon())})
+			case ret.Cfg.Index > st.CommitIndex && st.State != raft.Shutdown:
+				c.M.AddViolation(mon.Violation{Props: []string{"C09"}, Sig: "membership-future-uncommitted", Node: target, Msg: fmt.Sprintf("membership future at %s succeeded with configuration index %d while the commit index of that node is %d", target, ret.Cfg.Index, st.CommitIndex)})
+			}
+		}
 	}
 	if inc.Dead() {
 		ret.Outcome = "unknown"
